@@ -694,7 +694,7 @@ Section Layout.
   Lemma close_inv st cat info st' :
     SInv st -> closed st = false -> close cat info st = Ok st' -> Final st'.
   Proof.
-    intros SI Hc H. unfold Writer.close in H. destruct (strm st) eqn:Hs; [discriminate|].
+    intros SI Hc H. apply close_ok in H. unfold Writer.close0 in H. destruct (strm st) eqn:Hs; [discriminate|].
     pose proof (sinv_closed_fields _ SI Hs) as I0. destruct SI as [_ A0]. specialize (A0 Hs).
     binv H. destruct a as [croot st1]. binv Hk. binv Hk0. destruct a0 as [iref st5].
     cbv zeta in Hk. binv Hk. injection Hk0 as <-.
@@ -775,7 +775,7 @@ Section Layout.
     SInv st -> step st o = Ok st' ->
     closed st = false /\ ((SInv st' /\ closed st' = false) \/ Final st').
   Proof.
-    intros SI H. unfold Writer.step in H. destruct (closed st) eqn:Hc; [discriminate|]. split; [reflexivity|].
+    intros SI H. apply step_ok in H. unfold Writer.step0 in H. destruct (closed st) eqn:Hc; [discriminate|]. split; [reflexivity|].
     destruct o.
     - binv H. destruct a as [r st1]. injection Hk as <-. left.
       destruct (alloc_fields _ _ _ Hb) as [F1 [F2 [F3 [F4 [F5 [F6 [F7 F8]]]]]]]. destruct SI as [I A].
@@ -809,7 +809,10 @@ Section Layout.
   Qed.
 
   Lemma final_stuck st o : Final st -> step st o = Err Other.
-  Proof. intros [_ [_ [_ [Hc _]]]]. unfold Writer.step. rewrite Hc. reflexivity. Qed.
+  Proof.
+    intros [_ [_ [_ [Hc _]]]]. unfold Writer.step, Writer.step0. rewrite Hc.
+    destruct (accepts _ _ _); reflexivity.
+  Qed.
 
   Lemma final_self st n : Final st -> xlookup n (xtab st) = None -> wlookup n (wr st) = None.
   Proof. intros [_ [_ [_ [_ [_ H]]]]]. apply H. Qed.
